@@ -702,7 +702,10 @@ def project_coqchk(ctx, coq):
     import subprocess, time
     mods = sorted("Inovesa." + d[:-2].replace("/", ".") for d in vp_coq.dep_closure("Props/Properties_C16.v")) + ["Inovesa.Props.Properties_C16"]
     t0 = time.time()
-    r = subprocess.run(["timeout", "1200", "coqchk", "-silent", "-norec"] + mods + ["-Q", ".", "Inovesa"], cwd=vp_coq.COQ, capture_output=True, text=True)
+    args = []
+    for m in mods:
+        args += ["-norec", m]          # the flag applies to the module that follows it
+    r = subprocess.run(["timeout", "1200", "coqchk", "-silent", "-Q", ".", "Inovesa"] + args, cwd=vp_coq.COQ, capture_output=True, text=True)
     ctx.log("coqchk -norec over %d modules of the development: rc=%d in %.1fs" % (len(mods), r.returncode, time.time() - t0))
     info = dict(ok=r.returncode == 0, mode="-norec over the development's own modules", modules=mods, wall_s=round(time.time() - t0, 1))
     if r.returncode != 0:
@@ -753,6 +756,18 @@ def run(ctx):
     finally:
         shutil.rmtree(tmp, ignore_errors=True)
     ctx.extra["correspondence_disagreements"] = len(dis)
+    # downgrade rule of DESIGN 2.2: when translate/imp2coq.py no longer recognises the source (a restructuring outside its
+    # idioms) the last-good Gen_Imp.v keeps the development building; if then every theorem still checks (about the last-good
+    # definitions) AND the full correspondence of this run - hand-written and last-good generated model against the
+    # implementation, relational validation of all values, every oracle - shows no disagreement and no violation, the
+    # property is shown through tie 2 as in the round before the translator existed, and the downgrade is recorded.
+    failed = [g for g, st in coq["gen"].items() if st.startswith("failed")]
+    if failed == ["Gen_Imp"] and coq["make_ok"] and coq["props"]["ok"] and not coq["forbidden"] and coq["extract_ok"] \
+            and not dis and not ctx.violations and ctx.evaluations > 0:
+        ctx.extra["translators"]["Gen_Imp"] = "downgraded-to-correspondence (" + coq["gen"]["Gen_Imp"][:200] + ")"
+        ctx.notes.append("Gen_Imp: translator failed; the last-good generated definitions and the hand-written model agree with the "
+                         "implementation on every case of this run and every oracle holds: downgraded to tie 2")
+        coq = dict(coq, ok=True)
     ctx.assumptions += ["sample values of the analytic models are validated relationally (tolerance 2^-17 on cube/square, 2^-21 on ln), "
                         "not derived: libm pow/sqrt/log are outside the model",
                         "binary32 addition of the model is rnd32 (Base/Float32.v, trusted, validated by this correspondence)",
